@@ -1,7 +1,7 @@
 """C14 - relational operators are mutually consistent and depend only on content."""
-from .. import config, corpus
+from .. import config, corpus, gen
 from ..core import Ctx, finish
-from ..rules_cmp import CmpTU, rule_fastpath, rule_derived, rule_irreflexive, rule_lex
+from ..rules_cmp import CmpTU, rule_fastpath, rule_derived, rule_irreflexive, rule_lex, rule_support, rule_asymmetric
 from ._common import ASSUME, TRUSTED
 from ._tables import check_tables
 from .c13 import configs
@@ -21,6 +21,8 @@ def rule(tu, rec, pairs="all"):
     rec.count("ms_rule_irreflexive", int(1000 * (time.time() - t0)))
     t0 = time.time()
     rule_lex(cx, rec, "S4lex")
+    rule_support(cx, rec, "K4")
+    rule_asymmetric(cx, rec, "S2asym")
     rec.count("ms_rule_lex", int(1000 * (time.time() - t0)))
 
 
@@ -28,7 +30,7 @@ def run(tier, seed, only=None):
     ctx = Ctx("C14", tier, seed)
     cfgs = configs(tier, seed)
     check_tables(ctx, ("S4",), "S4")
-    corpus.run(ctx, "cv.props.c14", "rule", cfgs, extra={"gen": "gen_cmp_tu", "ruleargs": {"pairs": "quick" if tier == "quick" else "all"}})
+    corpus.run(ctx, "cv.props.c14", "rule", cfgs, flags=("-fno-exceptions",) + gen.ELEM_FLAGS, extra={"gen": "gen_cmp_tu", "ruleargs": {"pairs": "quick" if tier == "quick" else "all"}})
     ctx.floor("configurations", len(cfgs), 40)
     ctx.floor("obligations", ctx.obligations, 600)
     return finish(
